@@ -8,6 +8,7 @@ loader) every edit of the alphabet is applied through the public setters;
 after each edit the real marshalled bytes are decoded by the independent
 codec and compared field by field with the previous state."""
 import itertools
+import re
 
 from .. import refdbus as R
 from ..engine import Pool, Violation, worker_harness, crash_violation
